@@ -88,8 +88,11 @@ def _ipv4(data: bytes, off: int) -> tuple[tuple, int]:
 
 
 def _ip_address(data: bytes, off: int) -> tuple[tuple, int]:
+    if data[off] == 3:
+        host, port = struct.unpack_from(">16sH", data, off + 1)
+        return (socket.inet_ntop(socket.AF_INET6, host), port), off + 19
     if data[off] != 1:
-        raise ValueError("address type %d is not IPv4" % data[off])
+        raise ValueError("address type %d is neither IPv4 nor IPv6" % data[off])
     return _ipv4(data, off + 1)
 
 
@@ -278,6 +281,10 @@ class Scenario:
             return None
         if mid in INTRO_REQ and sender is not None:
             resp = [f for f in emitted if self.mid(f) in INTRO_RESP]
+            if not resp and any(self.mid(f) in PUNCT_REQ for f in emitted):
+                self.fail("N1", "response", f"{rcv.name} asked a third peer to puncture towards {sender.name} "
+                                            f"(puncture-request to {[f.dst for f in emitted if self.mid(f) in PUNCT_REQ]}) "
+                                            f"but sent {sender.name} no introduction response")
             if resp:
                 d = safe_decode(resp[0].data)
                 if d["lan_intro"] != ZERO or d["wan_intro"] != ZERO:
@@ -357,6 +364,16 @@ class Scenario:
         for n in [self.A, *self.fillers, self.B]:
             if not self.is_peer(self.I, n) or not self.is_peer(n, self.I):
                 raise HarnessError(f"set-up walk of {n.name} to the introducer did not connect them")
+        dual = self.case.get("dual", 0) if self.case["style"] == "old" and self.case["rounds"] == 1 else 0
+        if dual:
+            # the introducer has also heard from some candidates over IPv6 (dual-stack peers: IPv6 is then their
+            # preferred address, which an IPv4-only / old-style answer cannot carry)
+            from ipv8.messaging.interfaces.udp.endpoint import UDPv6Address
+            from ipv8.peer import Peer
+            for j, n in enumerate([*self.fillers, self.B][:1 if dual == 1 else None]):
+                self.I.network.add_verified_peer(Peer(n.my_peer.public_key.key_to_bin(),
+                                                      UDPv6Address("2001:db8::%x" % (j + 1), 7000 + j)))
+            self.hist.append("dual_stack_candidates:%d" % dual)
             if tuple(n.overlay.my_estimated_wan) != tuple(self.pub(n)):
                 raise HarnessError(f"{n.name} did not learn its WAN address: {n.overlay.my_estimated_wan} vs {self.pub(n)}")
 
@@ -606,7 +623,8 @@ def base_case(cfg: dict, idx: int) -> dict:
     return {"natA": cfg["natA"], "natB": cfg["natB"], "place": cfg["place"], "style": cfg["style"],
             "b_new": cfg["b_new"], "fillers": [["pub", 0]] * (cfg["k"] - 1), "rseed": idx, "rounds": 1,
             "picks": [], "early": 0, "order": 0, "alike": (idx // 5) % 2, "disc": (idx // 10) % 2,
-            "pool": (idx // 20) % 2, "walker": (idx // 2) % 3}
+            "pool": (idx // 20) % 2, "walker": (idx // 2) % 3,
+            "dual": (idx // 3) % 3}
 
 
 def _strategy(cfg: dict):
@@ -626,6 +644,7 @@ def _strategy(cfg: dict):
         "disc": st.integers(0, 1),
         "pool": st.sampled_from([0, 0, 1]),
         "walker": st.sampled_from([0, 0, 1, 2, 2]),
+        "dual": st.sampled_from([0, 0, 1, 1, 2]),
     })
 
 
